@@ -216,12 +216,19 @@ def loader_sections(ctx):
         if isinstance(st, ast.Assign) and len(st.targets) == 1 and isinstance(st.targets[0], ast.Subscript) \
                 and U(st.targets[0].value) == gp and U(st.value) == '[]':
             facts['name'] = U(expand(mf, st.targets[0].slice, stores))
+    if 'full_path' not in facts:
+        # the path written out in the call: _load_from_file(grammar[..], os.path.join(..), encoding)
+        for c in calls_in(mf):
+            if call_name(c) == '_load_from_file' and len(c.args) >= 2 and isinstance(c.args[1], ast.Call):
+                facts['full_path'] = U(c.args[1])
     fixed = {}
     cur_path = None
     for st in walk_stmts(fn.body):
         if isinstance(st, ast.Assign) and isinstance(st.value, ast.Call) and call_name(st.value) == 'os.path.join':
             cur_path = tuple(const(a) for a in st.value.args[1:])
         for c in ([x for x in ast.walk(st.test) if isinstance(x, ast.Call)] if isinstance(st, ast.If) else []):
+            if call_name(c) == '_load_from_file' and len(c.args) >= 2 and isinstance(c.args[1], ast.Call) and call_name(c.args[1]) == 'os.path.join':
+                cur_path = tuple(const(a) for a in c.args[1].args[1:])      # the path written out in the call
             if call_name(c) == '_load_from_file' and isinstance(c.args[0], ast.Subscript) and isinstance(const(c.args[0].slice), str):
                 fixed[const(c.args[0].slice)] = cur_path
             if call_name(c) == '_load_from_file':
